@@ -164,8 +164,10 @@ class C09(Check):
         plan["skip"] = sorted(rng.sample(ids[1:], rng.choice([0, 0, 1, 2]) if len(ids) > 2 else 0)) if len(ids) > 1 else []
         if rng.random() < 0.15:
             plan["skip"] = sorted(set(plan["skip"]) | {rng.randrange(2, 0x80)})
-        if rng.random() < 0.12:
+        if rng.random() < 0.18:
             plan["skip"] = sorted(set(plan["skip"]) | {1})
+            if not plan["thorough"] and rng.random() < 0.7:
+                plan["depth"] = max(plan["depth"], rng.choice([2, 3]))  # the default session on the skip list matters from the second level on
         nb = [t - 1 for t in g.get(1, []) if t >= 3]
         if nb and rng.random() < 0.15:
             # the numeric neighbour below a session offered by the default session (candidates are tried in numeric order)
